@@ -19,7 +19,8 @@ TRUSTED_BASE = [
 LEVEL = ("Coq theorems (Props/C02.v): with equal units == and partial_cmp are exactly the amount type's own; with different units both compare the two reference-unit magnitudes amount*scale computed in the amount type "
          "(normal form, generic in amount type and instance); hence for every amount type whose == is symmetric and whose partial_cmp is antisymmetric - proved for binary64 from Flocq and for the decimal model - "
          "a == b iff b == a, partial_cmp(a,b) is the reverse of partial_cmp(b,a) (so a<b iff b>a, a<=b iff b>=a), and partial_cmp reports Equal exactly when == holds, for ALL amounts of ALL unit pairs of ALL instances. "
-         "Agreement with the exact order of the magnitudes beyond one rounding is judged on the implementation with exact rationals for all ordered unit pairs (testing, supporting). In the binary floating-point configuration the comparison provably never contradicts the exact order of the magnitudes (ACC_C02_order, from monotonicity of rounding), for all finite amounts without overflow, and IS the exact order whenever the magnitudes differ by more than 2^-53 (|Mx|+|My|) (ACC_C02_separated); in the decimal configuration (Props/AccuracyDec.v) the amount type's own == and ordering are the exact ones of the values (DEC_comparison), and across units the verdict is the exact order of the magnitudes whenever they are more than 1e-18 apart and always when both have at most 18 fractional digits, without panic below 1e19 (DEC_C02_order).")
+         "Agreement with the exact order of the magnitudes beyond one rounding is judged on the implementation with exact rationals for all ordered unit pairs (testing, supporting). In the binary floating-point configuration the comparison provably never contradicts the exact order of the magnitudes (ACC_C02_order, from monotonicity of rounding), for all finite amounts without overflow, and IS the exact order whenever the magnitudes differ by more than 2^-53 (|Mx|+|My|) (ACC_C02_separated); in the decimal configuration (Props/AccuracyDec.v) the amount type's own == and ordering are the exact ones of the values (DEC_comparison), and across units the verdict is the exact order of the magnitudes whenever they are more than 1e-18 apart and always when both have at most 18 fractional digits, without panic below 1e19 (DEC_C02_order)."
+         " Composed over whole programs (Props/Programs.v, axiom-free): for every amount type with exact arithmetic, any tree of constructions, conversions, sums, differences and scalings by numbers run through the translated kernels carries the statically determined unit and denotes exactly its abstract physical magnitude, and ratio / == / partial ordering of two results are the abstract ratio, equality and order (PROG_refines, PROG_ratio, PROG_eq, PROG_cmp; induction over the program); instantiated with an exact rational amount type on every predefined quantity with a reference unit (PROG_catalogue, PROG_not_vacuous).")
 LEVEL_NOTE = "Trusted: Coq kernel, translator rs2j+j2v, Macro/Inst.v, Flocq binary64 and the fpdec model (validated by tools/dectest and the correspondence); stdlib real-number axioms via Flocq."
 ASSUMPTIONS = [
     "core's provided methods: != is !eq; < <= > >= are derived from partial_cmp (PartialOrd's default methods) - modelled in Proofs/Eval.v and validated by the correspondence on all six relations in both operand orders",
@@ -143,7 +144,7 @@ def run(ctx):
             published(ctx, kr, be, types)
     return kr.result("every type with reference unit x ALL ordered unit pairs x amount pairs (equal-by-construction magnitudes k*s_v vs k*s_u and k vs k*s_u/s_v for several k, "
                      "their one-step neighbours, clearly separated values, IEEE specials): all six relations and partial_cmp in BOTH operand orders; judged for (i) consistency of the derived operators, "
-                     "(ii) same-unit = amount type's own, (iii) order independence for non-NaN amounts, (iv) agreement with the exact rational order when separated by more than one conversion's rounding; "
+                     "(ii) same-unit = amount type's own, (iii) order independence for non-NaN amounts, (iv) agreement with the exact rational order when separated by more than one conversion's rounding, (v) for catalogue quantities the order given by the PUBLISHED unit definitions (Spec/Units.v) for magnitudes 1e-12 apart, all ordered unit pairs; "
                      "non-trivial = distinct (back-end, type, unit pair, class, amounts)", exhaustive=True)
 
 
